@@ -86,6 +86,8 @@ TFrag     == IsEv("frag") /\ Frag(Ev.id, Ev.tags[1])
 TExit     == IsEv("exit") /\ Exit(Ev.id, Ev.k)
 \* the writer receives one Write call: it must be exactly the pending output of one finished attempt
 TWrite    == IsEv("write") /\ buffered /\ Ev.tags # <<>> /\ buf[Ev.id] = Ev.tags /\ Flush(Ev.id)
+\* the writer received the pending output and reported an error
+TWriteFail == IsEv("writefail") /\ buffered /\ Ev.tags # <<>> /\ buf[Ev.id] = Ev.tags /\ FlushFail(Ev.id)
 \* the flush hook: the buffer was handed to the writer (nothing to do if the Write call was already seen)
 TFlush    == IsEv("flush") /\ (IF w[Ev.id] = "flushed" THEN UNCHANGED vars ELSE buf[Ev.id] = <<>> /\ Flush(Ev.id))
 TSending  == IsEv("sending") /\ Sending(Ev.id) /\ last[Ev.id] = Ev.k
@@ -108,7 +110,7 @@ TraceNext ==
   /\ \/ TConfig \/ TAdd \/ TDep \/ TRetries \/ TDefErr \/ TSort \/ TRun
      \/ TTmAdd \/ TTmGet \/ TDot \/ TValidate \/ TRerun \/ TAllDoneAgain \/ TContinue \/ TSetLimit
      \/ TLaunch \/ TRecv \/ TIdle \/ TObserved \/ TAllDone
-     \/ TAcquiring \/ TLocking \/ TAcquired \/ TLocked \/ TEnter \/ TFrag \/ TExit \/ TWrite \/ TFlush \/ TSending \/ TUnlock \/ TRelease
+     \/ TAcquiring \/ TLocking \/ TAcquired \/ TLocked \/ TEnter \/ TFrag \/ TExit \/ TWrite \/ TWriteFail \/ TFlush \/ TSending \/ TUnlock \/ TRelease
      \/ TCancel \/ TEnvLock \/ TEnvUnlock \/ TReturned
   /\ TLCSet(1, l)   \* high-water mark of consumed lines
 
